@@ -3,6 +3,7 @@ package checks
 import (
 	"encoding/json"
 	"fmt"
+	"sort"
 	"strings"
 
 	lockingtypes "github.com/goatnetwork/goat/x/locking/types"
@@ -245,7 +246,7 @@ func runC13(r *mc.Run) {
 		depth = 7
 		r.SetBudget(10 * 60 * 1e9)
 	} else {
-		r.SetBudget(150 * 1e9)
+		r.SetBudget(240 * 1e9)
 	}
 	r.Bounds["depth_blocks"] = depth
 	r.Rule = "DFS over block histories of the real locking keeper (BeginBlocker, execution-block requests as one atomic tx, EndBlocker) on CacheContext branches; menu = single request ops + interacting pairs + absent votes + evidence + time deltas; de-duplicated on a canonical re-based store dump; oracle = CometBFT ValidatorSet.UpdateWithChangeSet + top-K invariants"
@@ -253,9 +254,15 @@ func runC13(r *mc.Run) {
 	cfgs := c13Configs(r.Thorough())
 	r.Bounds["configs"] = len(cfgs)
 	r.Bounds["depth_blocks_small_configs"] = depth - 1
+	small := func(c lockCfg) bool {
+		return c.Name == "two-max1" || c.Name == "one-max3-tk2thr" || c.Name == "jailed-candidate+tk2-anchor" || c.HugeAmounts
+	}
+	// the small worlds first: should the wall-clock budget run out on a loaded machine, it is the
+	// deepest level of the two rich ones that is cut, not a whole configuration
+	sort.SliceStable(cfgs, func(i, j int) bool { return small(cfgs[i]) && !small(cfgs[j]) })
 	for _, c := range cfgs {
 		d := depth
-		if c.Name == "two-max1" || c.Name == "one-max3-tk2thr" || c.Name == "jailed-candidate+tk2-anchor" {
+		if small(c) && !c.HugeAmounts {
 			d = depth - 1 // smaller worlds get one level less; the budget goes to the two richer ones
 		}
 		e := &engb.Explorer{Run: r, NewRoot: c.newRoot, Menu: c13Menu(c, r.Thorough()), Monitor: c13Monitor(r, c), Depth: d, ConformanceDepth: 2}
